@@ -57,10 +57,10 @@ type workerMsg struct {
 
 func tierBounds(thorough bool) bounds {
 	if thorough {
-		return bounds{top: 3, core: 2, rest: 2, minor: 2, deep: 3}
+		return bounds{top: 3, core: 2, rest: 2, minor: 2, deep: 3, qtop: 4, qrest: 2}
 	}
 
-	return bounds{top: 2, core: 2, rest: 1, minor: 1, deep: 2}
+	return bounds{top: 2, core: 2, rest: 1, minor: 1, deep: 2, qtop: 3, qrest: 2}
 }
 
 func dedupe(cases []Case) []Case {
@@ -185,9 +185,10 @@ func main() {
 	r.Rule(fmt.Sprintf("11 request kinds (row read/update/delete/insert, abstract read/update/insert, transaction select/update/delete/insert) x deviating parameter "+
 		"(filter in 13 slot skeletons, filter pair, sort, columns, start, limit, table name, payload key, payload value, upsert key/value) x every string of 0..N symbols "+
 		"over the %d-symbol alphabet %q (N=%d for the core skeletons of a parameter on its first primary kind, %d on its other primary kinds, %d for the other skeletons on primary kinds, %d on the remaining kinds, %d for one filter skeleton on row read), "+
+		"plus quoted table names (a quoted real or other table name followed by 0..%d symbols -- 0..%d on the kinds that look the table up first -- over %q, kept when the name ends with a double quote) on every kind, "+
 		"plus %d filters of the documented grammar per filter-taking kind; "+
 		"each request is served by the real router/handlers on a pristine SQLite file; distinct = a request from which a statement reached the driver",
-		len(alphabet), alphabet, b.top, b.core, b.rest, b.minor, b.deep, len(documentedFilters())))
+		len(alphabet), alphabet, b.top, b.core, b.rest, b.minor, b.deep, b.qtop, b.qrest, quotedSymbols, len(documentedFilters())))
 	r.Assume(
 		"SQLite's EXPLAIN on an identical read-only copy names every b-tree a single statement can open; texts SQLite refuses to compile execute nothing",
 		"statement separation follows SQLite's token rules (strings, quoted identifiers, comments); the modernc driver runs every statement of a text",
@@ -366,6 +367,8 @@ func main() {
 	r.Set("fill_len_rest", b.rest)
 	r.Set("fill_len_minor", b.minor)
 	r.Set("fill_len_deep", b.deep)
+	r.Set("quoted_table_len_top", b.qtop)
+	r.Set("quoted_table_len_rest", b.qrest)
 	r.Set("workers", nw)
 	r.Finish()
 }
